@@ -241,7 +241,10 @@ class PlotModel:
 
 FIELD_POOL = ["density", "temp", "x_velocity", "y_velocity", "z_velocity", "rhoh",
               "Y(H2)", "Y(O2)", "Y(N2)", "mag_vort", "pressure", "a", "b", "phi",
-              "volFrac", "Y(CH2(S))", "mixture_fraction", "f7", "HeatRelease", "xi"]
+              "volFrac", "Y(CH2(S))", "mixture_fraction", "f7", "HeatRelease", "xi",
+              # names that are prefixes of each other, long names, digits, punctuation
+              "temperature", "I_R(CH2(S))", "progress_variable_based_on_the_sum_of_CO_and_CO2_mass_fractions",
+              "D_17", "avg_pressure", "rho.E", "Y(NC12H26)", "1", "vel-x", "all_fields"]
 
 
 def gen_mesh(src, ndims=None, max_levels=3, max_blocks0=3, max_boxes=24, bfs=(2, 4),
@@ -276,7 +279,8 @@ def gen_mesh(src, ndims=None, max_levels=3, max_blocks0=3, max_boxes=24, bfs=(2,
     else:
         m.geo_low = [0.0] * nd
     m.geo_high = [m.geo_low[d] + length[d] for d in range(nd)]
-    m.time = src.choice(f"{tag}.time", [0.0, 1.5, 1.3924182125972017e-08, 2.0, 1234.5678, 0.49947225144556617])
+    m.time = src.choice(f"{tag}.time", [0.0, 1.5, 1.3924182125972017e-08, 2.0, 1234.5678, 0.49947225144556617,
+                                        -0.25, 1e22, 5e-324, 0.1 + 0.2])
     step0 = src.choice(f"{tag}.step", [0, 20, 70100])
     m.steps = [step0] * m.nlev
     # levels: region as boolean block arrays
@@ -474,9 +478,18 @@ def fill_with(m, fn):
 
 
 def gen_world(src, tag="w", special_ok=True, **mesh_kw):
+    # swarm flag: a share of worlds is "big" (more levels, boxes, files, fields) so that count- and
+    # size-dependent behaviour is exercised; the rest stays tiny and fast
+    big = src.flag(f"{tag}.big", 6)
+    if big:
+        mesh_kw = dict(mesh_kw)
+        mesh_kw.setdefault("max_levels", 4)
+        mesh_kw["max_levels"] = max(mesh_kw["max_levels"], 4) if "force_levels" not in mesh_kw else mesh_kw["max_levels"]
+        mesh_kw["max_blocks0"] = max(mesh_kw.get("max_blocks0", 3), 5)
+        mesh_kw["max_boxes"] = max(mesh_kw.get("max_boxes", 24), 48)
     m = gen_mesh(src, tag=tag, **mesh_kw)
-    m.fields = gen_fields(src, tag=tag)
-    gen_layout(src, m, tag=tag)
+    m.fields = gen_fields(src, tag=tag, nmax=12 if big else 6)
+    gen_layout(src, m, tag=tag, max_files=7 if big else 4)
     special = special_ok and src.flag(f"{tag}.special", 4)
     fill_random(m, src.u64(f"{tag}.dataseed") if False else src.draw(f"{tag}.dataseed", 0, 999999), special=special)
     gen_cosmetics(src, m, tag)
